@@ -95,6 +95,9 @@ def retry_budget_stream(chk):
 
 
 def run(chk, replay):
+    if replay and "hist_case" in json.load(open(replay)).get("case", {}):
+        import hist as _h
+        _h.replay_big_record(chk, "C03", "a retry decides from the recorded run which steps are executed again: the record must come back as recorded, whatever its size", json.load(open(replay))["case"]["hist_case"]); return
     if replay and "argv_case" in json.load(open(replay)).get("case", {}):
         argv_stream(chk); return
     if replay and "execs_case" in json.load(open(replay)).get("case", {}):
@@ -105,3 +108,5 @@ def run(chk, replay):
         retry_budget_stream(chk)
     if not replay:
         x_execs.other_executors_stream(chk)
+        import hist as _hist
+        _hist.big_record_leg(chk, "C03", "a retry decides from the recorded run which steps are executed again: the record must come back as recorded, whatever its size")
